@@ -899,8 +899,39 @@ func c20Views(t *c20, e gen.Env) {
 			}
 			c20DNSEntry(t, r, ent)
 		}
+		if i%16 == 0 {
+			c20StructField(t, r)
+		}
 	}
 	go s.Close()
+}
+
+// c20StructField: Line.Struct(v) appends exactly what v's own FastLog appends - for every value, the zero value of a table
+// entry included (an address nobody filled in yet is rendered as such, it does not vanish from the line).
+func c20StructField(t *c20, r *rand.Rand) {
+	c := t.c
+	mac := net.HardwareAddr{2, byte(r.Intn(256)), 3, 4, 5, byte(r.Intn(256))}
+	ip := netip.AddrFrom4([4]byte{10, byte(r.Intn(256)), 0, byte(r.Intn(256))})
+	vals := []fastlog.FastLog{packet.Addr{}, packet.Addr{MAC: mac}, packet.Addr{IP: ip}, packet.Addr{MAC: mac, IP: ip, Port: uint16(r.Intn(65536))}, packet.Addr{Port: 1},
+		packet.Notification{}, packet.Notification{Addr: packet.Addr{MAC: mac, IP: ip}, Online: true}, packet.NameEntry{}, packet.NameEntry{Name: "n"}, packet.NewDNSEntry(), packet.DNSEntry{}}
+	for k, v := range vals {
+		c.Eval()
+		var viaStruct, direct string
+		cs := func() any {
+			return map[string]any{"index": t.idx, "value": fmt.Sprintf("%T %+v", v, v), "via_Struct": viaStruct, "via_FastLog": direct}
+		}
+		if c.Guard("C20", cs, func() {
+			viaStruct = c20Logger.Msg("s").Uint8("before", uint8(k)).Struct(v).Uint8("after", 7).ToString()
+			direct = v.FastLog(c20Logger.Msg("s").Uint8("before", uint8(k))).Uint8("after", 7).ToString()
+		}) != nil {
+			continue
+		}
+		if viaStruct != direct {
+			c.Viol(fmt.Sprintf("fmt:Struct:%T:differs-from-FastLog", v), fmt.Sprintf("Struct(v) rendered %q, v.FastLog renders %q", viaStruct, direct), cs())
+			continue
+		}
+		c.Obs("struct_fields_compared_with_their_own_rendering", 1)
+	}
 }
 
 // c20DNSEntry: the rendering of a DNS table entry is the name followed by its three record lists, each list holding exactly the
